@@ -1,0 +1,87 @@
+//go:build verif
+
+package epd
+
+// Comment-only contract file for the deductive verifier in /verif (see /verif/DESIGN.md).
+// It contains no code; with the build tag off the file is not even compiled.
+//
+// Property C20: the epoch shuffle.  The round function is uninterpreted (rf), so everything proved
+// about the Feistel network holds for any round function.
+//
+//@ import shuffle.smt2
+//@
+//@ func roundFunc
+//@   abstract
+//@   trusted definition: rf names the function computed by roundFunc (deterministic, no state)
+//@   ensures result == rf(x, k)
+//@   modifies nothing
+//@
+//@ define lowMask(bits) = ite(bits >= 64, uint64(0xffffffffffffffff), (uint64(1) << uint64(bits)) - 1)
+//@
+//@ func feistel
+//@   props C20
+//@   requires 1 <= bits && bits <= 64
+//@   ensures [range] result & ^lowMask(bits) == 0
+//@   modifies nothing
+//@   nopanic
+//@   loop 1: unroll 4
+//@
+//@ # injective on [0, 2^bits): two inputs with equal images are equal (two-copy obligation over the real body)
+//@ lemma feistelInjective(x uint64, y uint64, seed uint64, bits int)
+//@   props C20
+//@   split bits in 1..64
+//@   hyp 1 <= bits && bits <= 64 && x & ^lowMask(bits) == 0 && y & ^lowMask(bits) == 0
+//@   hyp body(feistel(x, seed, bits)) == body(feistel(y, seed, bits))
+//@   concl x == y
+//@
+//@ func shuffleIndex
+//@   props C20
+//@   ensures [range] implies(n > 1, result < n) && implies(n <= 1, result == 0)
+//@   modifies nothing
+//@   nopanic
+//@   loop 1: invariant n > 1 && bitsNeeded == len64(n-1) && 1 <= bitsNeeded && bitsNeeded <= 64 && mask == lowMask(bitsNeeded)
+//@
+//@ # ---- the line manifest.  fpos is the ghost position of the buffered reader in the physical file.
+//@ # ---- The contract of bufio's ReadSlice is its documented behaviour (assumed): on success it returns
+//@ # ---- the bytes up to and including the delimiter and advances by exactly that many bytes.
+//@ ghost fpos int64
+//@
+//@ extern (*bufio.Reader).ReadSlice
+//@   ensures implies(result1 == nil, len(result0) >= 1 && fpos == old(fpos) + int64(len(result0)))
+//@   ensures fpos >= old(fpos)
+//@   modifies fpos
+//@
+//@ func OpenByLines
+//@   trusted opening a file positions the reader at offset 0 (os.Open / bufio.NewReader are not verified)
+//@   ensures implies(result1 == nil, fpos == 0 && result0 != nil && result0.pos == 0)
+//@   modifies fpos
+//@
+//@ func (*ByLines).Close
+//@   trusted closes the file (not modelled)
+//@   modifies nothing
+//@
+//@ func (*ByLines).Read
+//@   props C20
+//@   requires fpos >= 0 && b.pos == fpos
+//@   ensures [tracks] implies(result1 == nil, b.pos == fpos)
+//@   ensures [line] implies(result1 == nil, len(result0) >= 1 && fpos - int64(len(result0)) - 1 >= old(fpos))
+//@   ensures [pos]  fpos >= old(fpos)
+//@   modifies fpos, b.pos
+//@   loop 1: invariant fpos >= pre(fpos) && b.pos == fpos
+//@   loop 1: modifies fpos, b.pos
+//@
+//@ func (*ByLines).Pos
+//@   props C20
+//@   ensures result == b.pos
+//@   modifies nothing
+//@
+//@ # every manifest entry is the physical extent of the line it was built from: it ends where the
+//@ # reader stands after that line and starts exactly len(line)+1 bytes earlier, at or after the end
+//@ # of everything read before
+//@ func NewChunker
+//@   props C20
+//@   requires fpos >= 0
+//@   allow-extern fmt. errors. os. io.
+//@   at-call append requires end == fpos && start == end - int64(len(line)) - 1 && start >= 0
+//@   loop 1: invariant fpos >= 0 && byLines.pos == fpos
+//@   loop 1: modifies fpos, byLines.pos, lineManifest.*
